@@ -233,6 +233,7 @@ func init() {
 			k.PNilOptArg = 12
 			k.PNamedSlice = 18
 			k.PDecoOrphan = 10 // decorators of keys / groups that nothing provides (differential oracle only)
+			k.PVisAfter = 20
 			// user functions may return errors (never panic) so that failed
 			// Invokes of every kind reach Visualize(VisualizeError)
 			k.NoFaults, k.PFault, k.PPanic, k.PErr = false, 10, 0, 40
